@@ -121,6 +121,9 @@ func Apply(l *Live, s *State, ev Event, tpls Templates) *StepOut {
 				return ""
 			}
 			hit := strings.Contains(c.Key(), parts[2])
+			if strings.HasSuffix(parts[2], "$") { // anchored: the whole key (tells "update X ns/n" from "update X ns/n /status")
+				hit = c.Key() == strings.TrimSuffix(parts[2], "$")
+			}
 			if c.Kind == "Pod" && c.Verb == "create" {
 				if p, ok := c.Obj.(*corev1.Pod); ok && TargetNode(p) == parts[2] {
 					hit = true
